@@ -14,17 +14,17 @@ from .. import treecheck
 from ..treeprop import DROP_ASC, DROP_DESC, HOLD_ASC, HOLD_DESC, TreeProp
 
 QUICK = [
-    ("S2", DROP_ASC, 1, "FULL"),
-    ("S4", HOLD_DESC, 1, "FULL"),
-    ("S1", DROP_ASC, 2, "FULL"),
-    ("S2r", HOLD_DESC, 1, "FULL"),
-    ("S5", DROP_ASC, 1, "FULL"),
-    ("S0", DROP_ASC, 3, "FULL"),
+    ("S2", DROP_ASC, 1, "FULLND"),
+    ("S4", HOLD_DESC, 1, "FULLND"),
+    ("S1", DROP_ASC, 2, "FULLND"),
+    ("S2r", HOLD_DESC, 1, "FULLND"),
+    ("S5", DROP_ASC, 1, "FULLND"),
+    ("S0", DROP_ASC, 3, "FULLND"),
 ]
 THOROUGH = []
 for _c in (DROP_ASC, HOLD_DESC, DROP_DESC, HOLD_ASC):
-    THOROUGH += [("S2", _c, 2, "FULL"), ("S4", _c, 2, "FULL"), ("S1", _c, 3, "FULL"), ("S2r", _c, 2, "FULL"), ("S0", _c, 4, "FULL"),
-                 ("S4r", _c, 2, "FULL"), ("S2", _c, 3, "STRUCT"), ("S5", _c, 2, "EDIT")]
+    THOROUGH += [("S2", _c, 2, "FULLND"), ("S4", _c, 2, "FULLND"), ("S1", _c, 3, "FULLND"), ("S2r", _c, 2, "FULLND"), ("S0", _c, 4, "FULLND"),
+                 ("S4r", _c, 2, "FULLND"), ("S2", _c, 3, "STRUCT"), ("S5", _c, 2, "EDIT")]
 
 P = TreeProp(
     "C09",
